@@ -226,6 +226,34 @@ func concMain(args []string) {
 			}
 		}
 	}
+	// ---- an action that finishes EARLY with an error of its own which happens to be of the timeout / cancelled kind
+	//      (a nested runner, a backend reporting a timeout): every runner hands that error back, and returns
+	for _, own := range []error{commonerrors.ErrTimeout, commonerrors.New(commonerrors.ErrTimeout, "backend timed out"), commonerrors.ErrCancelled, commonerrors.New(commonerrors.ErrCancelled, "inner cancellation")} {
+		for _, runner := range []string{"RunActionWithTimeout", "RunActionWithTimeoutAndContext", "RunActionWithTimeoutAndCancelStore"} {
+			done := make(chan error, 1)
+			go func() {
+				switch runner {
+				case "RunActionWithTimeout":
+					done <- parallelisation.RunActionWithTimeout(func(chan bool) error { return own }, 300*time.Millisecond)
+				case "RunActionWithTimeoutAndContext":
+					done <- parallelisation.RunActionWithTimeoutAndContext(context.Background(), 300*time.Millisecond, func(context.Context) error { return own })
+				default:
+					done <- parallelisation.RunActionWithTimeoutAndCancelStore(context.Background(), 300*time.Millisecond, parallelisation.NewCancelFunctionsStore(), func(context.Context) error { return own })
+				}
+			}()
+			canon := fmt.Sprintf("%s: the action returns at once with its own error %q", runner, own.Error())
+			rep.Eval(canon, true)
+			rep.Hist("own-error-of-a-context-kind")
+			select {
+			case err := <-done:
+				if !errors.Is(err, own) && err != own {
+					rep.Fail(hx.Failure{Kind: "impl-violates-property", Key: "runner-result-is-not-the-actions-own-error", Case: canon, Expected: own.Error(), Observed: fmt.Sprint(err)})
+				}
+			case <-time.After(2 * time.Second):
+				rep.Fail(hx.Failure{Kind: "impl-violates-property", Key: "runner-blocks-when-the-action-returns-a-context-kind-error", Case: canon, Expected: "the runner returns the action's error", Observed: "still blocked after 2 s (timeout 300 ms)"})
+			}
+		}
+	}
 	// ---- RunActionWithParallelCheck: the action's context ends when the check says no, when the caller cancels,
 	//      and after the action has returned; the action's own result comes back only if its context is still alive
 	for _, sc := range []struct {
